@@ -24,7 +24,7 @@
 //       ONE SnowflakeProxy configured by the operator strings (empty = not given) and put through the real
 //       Start(): its defaulting and the construction of the package's SignalingServer run as in production; Start
 //       is made to return right after that by an unparsable STUN URL (stopper s: the STUN string is "%zz") or by an
-//       invalid pattern that is replaced afterwards (stopper p).  Then one session per offer, the data channel
+//       invalid pattern that is replaced afterwards (stopper p); "<stopper>-<type>" also sets ProxyType.  Then one session per offer, the data channel
 //       opened and the dial observed as for urlfull.  offer = <raw>;E | <raw>;P;<scheme>;<host>;E |
 //       <raw>;P;<scheme>;<host>;P;<scheme2>;<host2> (second parse: of the string printed from the first with
 //       client_ip set; re-checked here).  Result per offer: refuse | dial:none | dial:<tls01>:x<host>.
@@ -307,6 +307,10 @@ func verifC06Started(stopper, relay, brokerURL, probe, stun, pattern string, all
 		RelayDomainNamePattern: pattern,
 		AllowNonTLSRelay:       allow,
 		KeepLocalAddresses:     true,
+	}
+	if i := strings.Index(stopper, "-"); i >= 0 {
+		sf.ProxyType = stopper[i+1:]
+		stopper = stopper[:i]
 	}
 	switch stopper {
 	case "s":
